@@ -464,6 +464,25 @@ fn c01_jobs(tier: Tier) -> Vec<HybJob> {
             }
         }
     }
+    // Directed programs (both tiers): histories the quick alphabet does not spell (a second key after
+    // clear(); a get_or_fetch caller that polls late) under all four base schedules, bound 1.
+    let ins = |k: u64, sz: usize| HOp::Ins { k, sz, loc: Loc::Default };
+    let directed: Vec<Vec<HOp>> = vec![
+        vec![ins(1, 100), HOp::Clear, ins(2, 100)],
+        vec![ins(1, 100), HOp::Wait, HOp::Clear, ins(2, 100), HOp::Wait],
+        vec![HOp::Gof { k: 1, sz: 100 }, ins(1, 5000), ins(1, 100)],
+        vec![HOp::Gof { k: 1, sz: 100 }, ins(1, 100), HOp::Rm { k: 1 }],
+        vec![HOp::Gof { k: 1, sz: 100 }, ins(1, 100), HOp::Fill { n: 2 }, HOp::Get { k: 1 }],
+    ];
+    for cfg in cfgs.iter().take(4) {
+        for prog in directed.iter() {
+            for policy in [Eager, LazyIo, ClientFirst, Alternate] {
+                let mut o = opts.clone();
+                o.final_restart = true;
+                jobs.push(HybJob { cfg: cfg.clone(), prog: prog.clone(), policy, opts: o, bound: 1 });
+            }
+        }
+    }
     jobs
 }
 
@@ -473,7 +492,7 @@ pub fn props() -> Vec<HybProp> {
         owned: vec!["R.", "X."],
         jobs: c01_jobs,
         judge: c01_judge,
-        rule: "Engine V: every program of up to 3 client calls over {insert small / 2-page / oversize, remove, get, get_or_fetch, fill (evict memory), wait, close+reopen, clear} (+ second key, storage-writer insert, on-disk insert in the thorough tier) on a real HybridCache over a real FsDevice directory, for both write policies x tombstone log on/off (+ all memory algorithms, zstd/lz4, 2 flushers in the thorough tier); each program is executed under three base schedules (Eager, LazyIo, ClientFirst) and every schedule within the deviation bound of the base schedule is explored (which ready task is polled next, which pending device IO completes next, when the next client call is issued). Values carry (key, version); every lookup during the program, after quiescence and after a graceful restart is judged by the version-register oracle R. A case is distinct if its lookup results or its device IO trace differ.",
+        rule: "Engine V: every program of up to 3 client calls over {insert small / 2-page / oversize, remove, get, get_or_fetch, fill (evict memory), wait, close+reopen, clear} (+ second key, storage-writer insert, on-disk insert in the thorough tier) on a real HybridCache over a real FsDevice directory, for both write policies x tombstone log on/off (+ all memory algorithms, zstd/lz4, 2 flushers in the thorough tier); each program is executed under base schedules (Eager, LazyIo, Alternate; ClientFirst in the thorough tier and for a handful of directed longer programs) and every schedule within the deviation bound of the base schedule is explored (which ready task is polled next, which pending device IO completes next, when the next client call is issued). Values carry (key, version); every lookup during the program, after quiescence and after a graceful restart is judged by the version-register oracle R. A case is distinct if its lookup results or its device IO trace differ.",
         assumptions: vec![
             "write shedding limits are far above the workload (none may trigger)",
             "placement advice of a key never alternates between in-memory-only and disk",
